@@ -29,9 +29,11 @@ class C10(P.Property):
     tiers = {"quick": dict(runs=6000, budget_s=60), "thorough": dict(runs=200000, budget_s=800)}
     technique = ("deterministic simulation: seeded raw-protocol message histories over consecutive simulated connections against a "
                  "3-state reference model, plus all histories of length <= 4 over a reduced alphabet")
-    level_text = ("seeded exploration of message histories (3-14 messages, two configurations, two indexes, tokens of two keys, graceful "
-                  "and aborted reconnects inside/after the cleanup window, foreign sid, unknown type) compared step by step with a "
-                  "reference model; the short-history sweep (1554 histories) is exhaustive for its alphabet, the rest is sampling")
+    level_text = ("seeded exploration of message histories (3-14 messages: two configurations, two indexes, tokens of two keys with unique / "
+                  "constant / absent digests, pipelined pairs, malformed-but-refusable contents, graceful and aborted reconnects inside / after "
+                  "the cleanup window and after 30 s, foreign sid, unknown type; decoy service; look-alike service ids; gc points; zero-latency "
+                  "and busy-loop profiles) compared step by step with a reference model; the short-history sweep (1554 histories) is "
+                  "exhaustive for its alphabet, the rest is sampling")
     level_note = ("trusted: reference model and interpreter in props/c10.py, the simulator; a refusal is observed as 'no ok reply and "
                   "no result' (explicit ok=False, or the server closing the connection, or silence for 30 simulated seconds)")
     rule = ("history = 3..14 messages from {config(c1|c2), upload(e1|e2), search(key x keyword), reconnect(graceful|abort, gap 0/.5/1.5s), "
